@@ -174,7 +174,23 @@ def one(ctx, cfg, rich, wild, via, tmproot, with_return=False, key=0):
         res = run_api(p) if via == "api" else run_cli(p)
         ctx.event("sync_runs:" + via)
         replay["after"] = {os.path.basename(f): (open(f).read() if os.path.exists(f) else None) for f in p.files.values()}
-        evaluate(ctx, p, res, base, replay, truth_ir, via)
+        evaluate(ctx, p, res, dict(base, phase="first_sync"), replay, truth_ir, via)
+        if key % 4 == 1 and via == "api" and not cfg["method"] and not wild0 and res["exc"] is None:
+            # the truth changes and the same invocation runs again in the same process:
+            # every target must now agree with the NEW truth
+            from ..syncsim import definition_src
+            with open(p.files[p.truth], "w") as f:
+                f.write(definition_src(p.truth, p.stale_ir) + "\n")
+            truth_ir2, problem2 = parse_target(p.truth, p.files[p.truth], p.names[p.truth])
+            if truth_ir2 is not None:
+                p.pre = {k: ("after_first_sync" if k != p.truth else v) for k, v in p.pre.items()}
+                for e in p.extra:
+                    e["pre"] = "after_first_sync"
+                res2 = run_api(p)
+                ctx.event("second_syncs_after_truth_change")
+                ctx.feature("second_sync_after_truth_change")
+                replay2 = dict(replay, second_phase=True)
+                evaluate(ctx, p, res2, dict(base, phase="second_sync_after_truth_change", truth_problem=problem2), replay2, truth_ir2, via)
     finally:
         shutil.rmtree(root, ignore_errors=True)
 
